@@ -18,7 +18,7 @@ from vf import c02_gen as g
 RULE = ("networks with one 110 kV slack bus, 2-4 20 kV buses, 1-6 lines (per-km data, parallel 1-2, df, g, c, optional temperature "
         "correction, in/out of service, parallel lines), 1-2 two-winding transformers (tap changer Ratio/Symmetrical/Ideal/none on "
         "hv/lv side, tap_step_degree 0/NaN/30/90/-60, shift 0/150/+-30, second tap changer tap2_* in 25 %, parallel, df, i0/pfe incl. 0 and the clipped case, leakage "
-        "ratios), 0-1 three-winding transformers (terminal and star-point tap, loss side hv/mv/lv/star), impedance (shunt g/b at both "
+        "ratios), 0-1 three-winding transformers (terminal and star-point tap, loss side hv/mv/lv/star), impedance (series and shunt asymmetries drawn independently: only x, only r, both, none; g/b at both "
         "ends), xward, impedance bus-bus switch, shunt, sgen; options trafo_model t/pi, trafo_loading current/power, "
         "calculate_voltage_angles on/off, consider_line_temperature, switch_rx_ratio, sn_mva 1/10/100, f 50/60; "
         "non-trivial = converged net with a tap changer off neutral or a 3W transformer or an impedance")
@@ -180,6 +180,8 @@ def _one(ctx, d, terms, pend, sample=False):
         ctx.count("tap_%s_%s" % (t["tap"]["type"], t["tap"]["side"]))
         if t.get("tap2"):
             ctx.count("tap2_%s" % t["tap2"]["type"])
+    for im in d["imp"]:
+        ctx.count("imp_asym_r%d_x%d_g%d_b%d" % (im["rft"] != im["rtf"], im["xft"] != im["xtf"], im["gf"] != im["gt"], im["bf"] != im["bt"]))
     for w in d["t3"]:
         ctx.count("t3_star_%s" % w["star"])
     if g.star_nan_defect(d):
